@@ -128,11 +128,89 @@ def run_program(rng):
     return []
 
 
+def scripted():
+    """Hand-picked linearisations from the property's quantifier (children in plain tasks outliving the parent)."""
+    problems = []
+    order = []
+
+    def cb(tag):
+        def done(metrics):
+            order.append(tag)
+        return done
+
+    async def main():
+        e_c1_in, e_p_out, e_c1_go, e_c2_go = (asyncio.Event() for _ in range(4))
+
+        async def c1():
+            with ctx.scope("C1", completion=cb("C1")):
+                e_c1_in.set()
+                await e_c1_go.wait()
+            order.append("C1-left")
+
+        async def c2():
+            await e_p_out.wait()                      # enters only after the parent was left
+            with ctx.scope("C2", completion=cb("C2")):
+                order.append("C2-entered")
+                await e_c2_go.wait()
+            order.append("C2-left")
+
+        with ctx.scope("P", completion=cb("P")):
+            t1 = asyncio.ensure_future(c1())
+            t2 = asyncio.ensure_future(c2())
+            await e_c1_in.wait()
+        order.append("P-left")
+        e_p_out.set()
+        for _ in range(3):
+            await asyncio.sleep(0)
+        e_c1_go.set()
+        for _ in range(3):
+            await asyncio.sleep(0)
+        e_c2_go.set()
+        try:
+            await asyncio.gather(t1, t2)
+        except BaseException as e:  # noqa
+            problems.append(f"scripted scenario raised {e!r}")
+        for _ in range(3):
+            await asyncio.sleep(0)
+        # a scope created after its parent fully completed must not break anything
+        holder = {}
+
+        async def late():
+            await holder["go"].wait()
+            try:
+                with ctx.scope("late", completion=cb("late")):
+                    pass
+            except BaseException as e:  # noqa
+                problems.append(f"scope created under an already completed scope raised {e!r}")
+        holder["go"] = asyncio.Event()
+        with ctx.scope("Q", completion=cb("Q")):
+            t3 = asyncio.ensure_future(late())
+        holder["go"].set()
+        await t3
+        for _ in range(3):
+            await asyncio.sleep(0)
+    asyncio.run(main())
+    if problems:
+        return problems
+    for tag in ("P", "C1", "C2", "Q", "late"):
+        if order.count(tag) != 1:
+            return [f"completion callback of {tag} ran {order.count(tag)} times (order {order})"]
+    if not (order.index("C1-left") < order.index("P") and order.index("C2-left") < order.index("P")):
+        return [f"completion of P fired before its nested scopes C1 and C2 were left (order {order})"]
+    if order.index("P") < order.index("P-left"):
+        return ["completion of P fired before P was left"]
+    return []
+
+
 def main():
     sys.stdin.read()
+    sp = scripted()
+    if sp:
+        print(json.dumps(dict(reproduced=True, detail=dict(problem=sp[0], scenario="scripted"), cases_tried=1), default=str))
+        return
     seed = int(os.environ.get("VERIF_SEED", "0") or 0)
     n, p = 0, None
-    for k in range(int(os.environ.get("C09_PROGRAMS", "150"))):
+    for k in range(int(os.environ.get("C09_PROGRAMS", "70"))):
         n += 1
         pr = run_program(random.Random(seed * 104729 + k))
         if pr:
